@@ -15,6 +15,7 @@ var extClasses = map[string]bool{
 	"table_size_inflight": true, "table_size_raised": true, "extension_frame": true, "preface_joined": true, "proc": true, "cuts": true, "empty_headers_fragment": true,
 	"padded_block": true, "grant_position": true, "both_blocked": true, "many_streams": true, "block_size": true,
 	"settings_contents": true, "field_lists": true, "short_reads": true, "zero_priority": true,
+	"table_size_raised_lowered_inflight": true, "max_frame_size_lowered_queued": true, // round 8
 }
 
 func hdr(stream uint32, fields [][2]string, es bool) hw.Spec {
@@ -47,6 +48,145 @@ func extScenarios(tier string, base []scenario) []scenario {
 	out = append(out, contentsFamily()...)
 	out = append(out, shortReads()...)
 	out = append(out, zeroPriority()...)
+	out = append(out, tableSizeRaisedLoweredInFlight()...)
+	out = append(out, maxFrameSizeLoweredQueued()...)
+	return out
+}
+
+// maxFrameSizeLoweredQueued (round 8): the receiver has raised SETTINGS_MAX_FRAME_SIZE (65536), the sender uses it
+// (one DATA frame of N bytes), the receiver's stream window (0) keeps the frame queued in the relay, the receiver
+// LOWERS its maximum frame size (16384 / 20000) and only then grants credit: the relay has to cut the queued payload
+// again. N sweeps the multiples of the lowered size and their neighbours (k*max-1, k*max, k*max+1 for k = 1..3) and
+// 65535; END_STREAM on the DATA frame or on trailers behind it; both directions. Judged by the same clauses as
+// every scenario: the same DATA bytes, END_STREAM at the same position, no frame above the receiver's (last
+// announced = lowered) maximum frame size.
+func maxFrameSizeLoweredQueued() []scenario {
+	var out []scenario
+	for _, max := range []int{16384, 20000} {
+		sizes := []int{65535} // the largest frame the default connection window (65535, never changed here) covers
+		for k := 1; k <= 3; k++ {
+			sizes = append(sizes, k*max-1, k*max, k*max+1)
+		}
+		for _, n := range sizes {
+			for _, end := range []string{"es", "trailers"} {
+				for _, dir := range []string{"c2s", "s2c"} {
+					msg := []hw.Spec{data(1, n, end == "es")}
+					if end == "trailers" {
+						msg = append(msg, hdr(1, trailerFields, true))
+					}
+					raise := settings([2]uint32{4, 0}, [2]uint32{5, 65536})
+					lower := settings([2]uint32{5, uint32(max)})
+					grant := hw.Spec{T: "wu", Stream: 1, Incr: uint32(n)}
+					var steps []step
+					if dir == "c2s" {
+						steps = []step{{Client: []hw.Spec{settings()}, Server: []hw.Spec{raise}},
+							{Client: append([]hw.Spec{hdr(1, reqFields, false)}, msg...)},
+							{Server: []hw.Spec{lower}}, {Server: []hw.Spec{grant}},
+							{Server: []hw.Spec{hdr(1, resFields, true)}}}
+					} else {
+						steps = []step{{Client: []hw.Spec{raise}, Server: []hw.Spec{settings()}},
+							{Client: []hw.Spec{hdr(1, reqFields, true)}},
+							{Server: append([]hw.Spec{hdr(1, resFields, false)}, msg...)},
+							{Client: []hw.Spec{lower}}, {Client: []hw.Spec{grant}}}
+					}
+					out = append(out, scenario{Fam: "grants", Class: "max_frame_size_lowered_queued", Bound: 0, Steps: steps,
+						Name: fmt.Sprintf("%s: receiver with max frame size 65536 and window 0, one %d-byte DATA frame (end: %s) queued, the receiver lowers its max frame size to %d, then grants", dir, n, end, max)})
+				}
+			}
+		}
+	}
+	return out
+}
+
+// tableSizeRaisedLoweredInFlight (round 8) combines the two table size families: endpoint A has RAISED its header
+// table (8192 / 65536), endpoint B has received that and is using it, and A LOWERS it again (4096 / 0) while blocks
+// that B encoded against the raised size are in flight toward the relay - so the relay handles A's second SETTINGS
+// before it reads them. B is entitled to the raised size until it has received (and acknowledged) the second
+// SETTINGS (RFC 7540 section 6.5.3, RFC 7541 sections 4.2 and 6.3), so A must receive the same field lists.
+//   - leading: the blocks in flight are B's first ones after the raise, the first of them starts with the dynamic
+//     table size update to the raised value; otherwise the update has passed the relay already, 6400 bytes of
+//     table are in use and the blocks in flight refer to entries beyond the first 4096 bytes;
+//   - how "in flight" comes about: A's SETTINGS and B's blocks are written concurrently (orders explored as schedule
+//     deviations), or B's single write is delivered by the transport in two pieces (10 bytes = frame header + the
+//     first octet of the block, or 3000 bytes) with A's SETTINGS passing the relay in between: on every schedule;
+//   - both directions. Afterwards B acknowledges, signals the lowered size in-band and sends the fields again.
+func tableSizeRaisedLoweredInFlight() []scenario {
+	var out []scenario
+	var many [][2]string
+	for i := 0; i < 50; i++ {
+		many = append(many, [2]string{fmt.Sprintf("x-g-%02d", i), strings.Repeat(string(rune('a'+i%26)), 60) + strings.Repeat("~", 30)}) // 128-byte entries: 6400 bytes of table
+	}
+	blk := func(stream uint32, f [][2]string) xspec {
+		return xspec{XT: "block", Spec: hw.Spec{T: "headers", Stream: stream, Fields: f, EndStream: true}}
+	}
+	tsz := func(v uint32) xspec { return xspec{XT: "tablesize", Spec: hw.Spec{Settings: [][2]uint32{{1, v}}}} }
+	ack := xspec{Spec: hw.Spec{T: "settings_ack"}}
+	for _, up := range []uint32{8192, 65536} {
+		for _, down := range []uint32{4096, 0} {
+			for _, dir := range []string{"s2c", "c2s"} {
+				a, b := "client", "server"
+				fields := cat(resFields[:1], many)
+				if dir == "c2s" {
+					a, b = "server", "client"
+					fields = cat(reqFields[:4], many)
+				}
+				// stA: a step of the announcing endpoint (own writer), stB: a step of the sending endpoint
+				stA := func(xs ...xspec) step {
+					if a == "client" {
+						return step{XC: xs}
+					}
+					return step{XS: xs}
+				}
+				stB := func(xs ...xspec) step {
+					if b == "client" {
+						return step{XC: xs}
+					}
+					return step{XS: xs}
+				}
+				both := func(xa, xb []xspec) step {
+					if a == "client" {
+						return step{XC: xa, XS: xb}
+					}
+					return step{XC: xb, XS: xa}
+				}
+				lower := xspec{XT: "settings", Spec: hw.Spec{Settings: [][2]uint32{{1, down}}}} // own writer: A's decoder keeps following the in-band updates
+				for _, leading := range []bool{true, false} {
+					for _, hold := range []int{0, 10, 3000} {
+						steps := []step{settingsStep()}
+						if a == "client" {
+							steps = append(steps, step{Client: []hw.Spec{hdr(1, reqFields, true), hdr(3, reqFields, true), hdr(5, reqFields, true), hdr(7, reqFields, true), hdr(9, reqFields, true)}},
+								step{Client: []hw.Spec{settings([2]uint32{1, up})}})
+						} else {
+							steps = append(steps, step{Server: []hw.Spec{settings([2]uint32{1, up})}})
+						}
+						var inflight []xspec
+						what := "blocks that start with the size update to it and fill 6400 bytes of table"
+						if leading {
+							steps = append(steps, stB(ack))
+							inflight = []xspec{tsz(up), blk(1, fields), blk(3, fields)}
+						} else {
+							steps = append(steps, stB(ack, tsz(up), blk(1, fields)))
+							inflight = []xspec{blk(3, fields), blk(5, fields[:len(fields)-25])}
+							what = "blocks that refer to the oldest of 6400 bytes of table entries"
+						}
+						how := "written concurrently"
+						if hold == 0 {
+							steps = append(steps, both([]xspec{lower}, inflight))
+						} else {
+							how = fmt.Sprintf("the transport delivers %d bytes of them before and the rest after", hold)
+							steps = append(steps, stB(append([]xspec{{XT: "hold", ULen: hold}}, inflight...)...), stA(lower), stB(xspec{XT: "release"}))
+						}
+						steps = append(steps, stB(ack, tsz(down), blk(7, fields), blk(9, fields)))
+						if a == "server" {
+							steps = append(steps, step{Server: []hw.Spec{hdr(1, resFields, true), hdr(9, resFields, true)}})
+						}
+						out = append(out, scenario{Fam: "hpack", Class: "table_size_raised_lowered_inflight", Bound: 1, Steps: steps, NoDeepen: hold != 0, // thorough deepens the concurrent variant only (the two-piece histories need no deviation)
+							Name: fmt.Sprintf("the %s has raised its header table to %d and lowers it to %d while the %s's %s are in flight (%s)", a, up, down, b, what, how)})
+					}
+				}
+			}
+		}
+	}
 	return out
 }
 
